@@ -69,6 +69,45 @@ LoopF(cfg, opts, r) ==
                   IN LoopF(cfg, opts, [st |-> TickF(opts, RecordF(cfg, opts, p)),
                                        lg |-> AppendLogs(cfg, opts, r.lg, p)])
 
+\* ---- the same run as the sequence of phase events the hook of the code emits ---------------
+\* (ph = name of the phase just passed, st = state after it, task = the task an "alloc_task" event
+\* is about).  A run that dies in list.remove() emits nothing from the dying phase on.
+Evt(ph, s, task) == [ph |-> ph, st |-> s, task |-> task]
+UpdateEvents(cfg, p) ==
+  LET s1 == UpdateFinF(cfg, p)
+      s2 == UnplaceF(cfg, s1)
+      s3 == UpdateReadyF(cfg, s2)
+      s4 == PertF(cfg, s3)
+      all == << Evt("finished", s1, 0), Evt("unplaced", s2, 0), Evt("ready", s3, 0), Evt("updated", s4, 0) >>
+  IN SubSeq(all, 1, IF s1.crash THEN 0 ELSE IF s2.crash THEN 1 ELSE IF s3.crash THEN 2 ELSE IF s4.crash THEN 3 ELSE 4)
+AllocEvents(cfg, opts, b) ==
+  IF IsAbsenceStep(opts, b.time) THEN <<>>
+  ELSE LET ord == AllocOrder(cfg, opts, b)
+           all == [k \in 1..Len(ord) |-> Evt("alloc_task", AllocPrefix(cfg, opts, b, k).st, ord[k])]
+       IN SelectSeq(all, LAMBDA e: ~e.st.crash)
+RECURSIVE RunEventsLoop(_, _, _, _)
+RunEventsLoop(cfg, opts, s, acc) ==
+  LET ue == UpdateEvents(cfg, s)
+  IN IF Len(ue) < 4 THEN acc \o ue
+     ELSE LET u == ue[4].st
+          IN IF Returns(cfg, opts, u) THEN acc \o ue \o << Evt("returned", ReturnF(cfg, opts, u), 0) >>
+             ELSE LET b  == PresenceF(cfg, opts, u)
+                      ae == AllocEvents(cfg, opts, b)
+                      a  == AllocF(cfg, opts, b)
+                  IN IF a.crash THEN acc \o ue \o << Evt("presence", b, 0) >> \o ae
+                     ELSE LET s1 == StartPhaseF(cfg, opts, a)
+                              p  == PerformF(cfg, opts, s1)
+                              rc == RecordF(cfg, opts, p)
+                          IN RunEventsLoop(cfg, opts, TickF(opts, rc),
+                                 acc \o ue \o << Evt("presence", b, 0) >> \o ae
+                                     \o << Evt("allocated", a, 0), Evt("started", s1, 0), Evt("cost", s1, 0),
+                                           Evt("performed", p, 0), Evt("recorded", rc, 0) >>)
+RunEventsF(cfg, opts) == RunEventsLoop(cfg, opts, InitF(cfg), << Evt("init", InitF(cfg), 0) >>)
+\* the run as the harness would have recorded it from the code
+RunRecordF(cfg, opts) ==
+  LET r == LoopF(cfg, opts, [st |-> InitF(cfg), lg |-> EmptyLogs(cfg)])     \* (= SimulateF)
+  IN [ev |-> RunEventsF(cfg, opts), ret |-> IF r.st.crash THEN "exc:ValueError" ELSE "ok", final |-> r]
+
 \* project.initialize(state_info, log_info) on a project in state/logs r = [st, lg]
 \*  log_info:   time, cost list, mode, status and every log are reset
 \*  state_info: resources FREE and unassigned, workplaces empty, tasks reset (FINISHED by default
